@@ -7,6 +7,7 @@ mod ext;
 mod hnd;
 mod meta;
 mod mgr;
+mod url;
 mod util;
 
 fn main() {
@@ -26,6 +27,7 @@ fn main() {
         "mgr" => mgr::run(&lines),
         "hnd" => hnd::run(&lines),
         "conn" => c06::run(&lines),
+        "url" => url::run(&lines),
         other => {
             eprintln!("unknown property {}", other);
             std::process::exit(2);
